@@ -42,6 +42,37 @@ class Prop(PropBase):
             cs.append(Case("T 0 ; we 5 97 0 0 1 %d 0 0 0 9 0 0 22 24 27 25 ; we 5 98 0 0 0 9 0 0 1 %d 0 0 22 24 27 25" % (v, v), sweep="wire-high", cfgs=["0 1 %d 0 5 2" % (v % 6)]))
         for v in range(232, 256):
             cs.append(Case("T 0 ; we 5 97 0 0 2 %d 0 0 0 9 0 0 22 24 27 25 ; we 5 98 0 0 0 9 0 0 2 %d 0 0 22 24 27 25" % (v, v), sweep="wire-grey", cfgs=["2 0 %d 0 5 2" % (v % 6)]))
+        # the colour in every glyph context: a blank, a letter, a UTF-8 glyph, a DEC graphic - positive and negative, underlined
+        # or not - after an element of another colour (so the index has to be transmitted)
+        glyphs = ["5 32 0 0", "5 120 0 0", "18 226 148 129", "0 113 0 0"]
+        k = 0
+        for v in range(16, 256):
+            kind = 1 if v < 232 else 2
+            other = "%d %d 0 0" % ((1, 16 + (v - 16 + 7) % 216) if kind == 1 else (2, 232 + (v - 232 + 5) % 24))
+            for g in glyphs:
+                for pol in (27, 7):
+                    for un in (24, 4):
+                        if tier == "quick" and (k % 2) and g != "5 32 0 0":
+                            k += 1
+                            continue
+                        k += 1
+                        first = "5 97 0 0 %s %s 22 24 27 25" % (other, other)
+                        fg = "%s %d %d 0 0 %s 22 %d %d 25" % (g, kind, v, other, un, pol)
+                        bg = "%s %s %d %d 0 0 22 %d %d 25" % (g, other, kind, v, un, pol)
+                        cs.append(Case("T 0 ; we %s ; we %s ; we %s ; we %s" % (first, fg, first, bg), sweep="wire-glyph-contexts",
+                                       cfgs=["%d 1 %d 0 5 2" % (k % 3, k % 6)]))
+        # ... and after every kind of predecessor on the same plane whose stored bytes resemble it: the true colours (0,0,N),
+        # (N,0,0), (0,N,0), (N,N,N), the low colour N mod 8, the neighbouring indices, the OTHER palette kind holding the same raw byte
+        for v in range(16, 256):
+            kind = 1 if v < 232 else 2
+            preds = ["3 0 0 %d" % v, "3 %d 0 0" % v, "3 0 %d 0" % v, "3 %d %d %d" % (v, v, v), "0 %d 0 0" % (v % 8), "%d %d 0 0" % (kind, v - 1 if v not in (16, 232) else v + 1),
+                     "%d %d 0 0" % (3 - kind, v)]
+            for j, pr in enumerate(preds):
+                a = "5 97 0 0 %s 0 9 0 0 22 24 27 25" % pr
+                b = "5 98 0 0 %d %d 0 0 0 9 0 0 22 24 27 25" % (kind, v)
+                c = "5 99 0 0 0 9 0 0 %s 22 24 27 25" % pr
+                d = "5 100 0 0 0 9 0 0 %d %d 0 0 22 24 27 25" % (kind, v)
+                cs.append(Case("T 0 ; we %s ; we %s ; we %s ; we %s" % (a, b, c, d), sweep="wire-predecessors", cfgs=["%d 1 %d 0 5 2" % (j % 3, v % 6)]))
         # palette colours must survive attribute transitions: same colour, effects switching on/off around it
         effs = [(i, u, p, b) for i in (1, 2, 22) for u in (4, 24) for p in (7, 27) for b in (5, 25)]
         vals = [16, 17, 52, 196, 231, 232, 255] if tier == "quick" else list(range(16, 256, 5))
